@@ -32,6 +32,7 @@ func init() {
 		rtPkg + ".Assert":        rtAssert,
 		rtPkg + ".Tag":           rtTag,
 		rtPkg + ".Note":          rtNote,
+		rtPkg + ".AssertStatic":  rtAssertStatic,
 		rtPkg + ".Havoc":         rtHavoc,
 		rtPkg + ".NoAlias":       rtNoAlias,
 		rtPkg + ".Observe":       rtObserve,
@@ -248,6 +249,98 @@ func rtAssert(ex *Exec, fn *ssa.Function, args []Value) (Value, *Panic) {
 
 func rtTag(ex *Exec, fn *ssa.Function, args []Value) (Value, *Panic) {
 	ex.tags[argStr(args[0])] = argStr(args[1])
+	return nil, nil
+}
+
+// rtAssertStatic counts a structural pattern in the SSA of the harness's package (library
+// functions only) and reports a finding if the count differs from the expected one.
+func rtAssertStatic(ex *Exec, fn *ssa.Function, args []Value) (Value, *Panic) {
+	kind, where, what := argStr(args[0]), argStr(args[1]), argStr(args[2])
+	expected := int(args[3].(*Term).Int())
+	label := argStr(args[4])
+	ex.reach[label]++
+	pkg := ex.W.pkgs[ex.harness.Pkg]
+	count := 0
+	var sites []string
+	fieldName := func(v ssa.Value) string {
+		if u, ok := v.(*ssa.UnOp); ok {
+			v = u.X
+		}
+		switch fa := v.(type) {
+		case *ssa.FieldAddr:
+			if st, ok := fa.X.Type().Underlying().(*types.Pointer).Elem().Underlying().(*types.Struct); ok {
+				return st.Field(fa.Field).Name()
+			}
+		case *ssa.Field:
+			if st, ok := fa.X.Type().Underlying().(*types.Struct); ok {
+				return st.Field(fa.Field).Name()
+			}
+		}
+		return ""
+	}
+	visit := func(f *ssa.Function) {
+		if !ex.W.isLibFunc(f) || (where != "" && f.Name() != where) {
+			return
+		}
+		for _, b := range f.Blocks {
+			for _, in := range b.Instrs {
+				hit := false
+				switch kind {
+				case "go":
+					if g, ok := in.(*ssa.Go); ok {
+						if c := g.Call.StaticCallee(); c != nil && strings.Contains(c.Name(), what) {
+							hit = true
+						}
+					}
+				case "invoke":
+					if c, ok := in.(ssa.CallInstruction); ok && c.Common().IsInvoke() && c.Common().Method.Name() == what {
+						hit = true
+					}
+				case "send":
+					if sd, ok := in.(*ssa.Send); ok && fieldName(sd.Chan) == what {
+						hit = true
+					}
+					if sl, ok := in.(*ssa.Select); ok {
+						for _, st := range sl.States {
+							if st.Dir == types.SendOnly && fieldName(st.Chan) == what {
+								hit = true
+							}
+						}
+					}
+				}
+				if hit {
+					count++
+					sites = append(sites, f.Name()+" @ "+ex.W.posString(in.Pos()))
+				}
+			}
+		}
+	}
+	for _, m := range pkg.Members {
+		switch x := m.(type) {
+		case *ssa.Function:
+			visit(x)
+			for _, an := range x.AnonFuncs {
+				visit(an)
+			}
+		case *ssa.Type:
+			for _, t := range []types.Type{x.Type(), types.NewPointer(x.Type())} {
+				ms := ex.W.prog.MethodSets.MethodSet(t)
+				for i := 0; i < ms.Len(); i++ {
+					if f := ex.W.prog.MethodValue(ms.At(i)); f != nil && f.Synthetic == "" {
+						visit(f)
+						for _, an := range f.AnonFuncs {
+							visit(an)
+						}
+					}
+				}
+			}
+		}
+	}
+	if count != expected && !ex.replaying() && ex.concrete == nil {
+		f := &Finding{Kind: "static", Label: label, Fault: "count", Func: where, Src: kind + " " + what, Tags: copyTags(ex.tags),
+			Msg: fmt.Sprintf("expected %d, found %d: %s", expected, count, strings.Join(sites, "; "))}
+		ex.report(f, nil)
+	}
 	return nil, nil
 }
 
